@@ -174,7 +174,18 @@ impl StateCheck for C05 {
 }
 
 fn env_alphabet(t: usize) -> Vec<Letter> {
-    let vecs: Vec<Vec<V>> = if t == 2 { vec![k(&[1, 0]), k(&[0, 3]), k(&[3, 1]), k(&[2, 2])] } else { vec![k(&[1]), k(&[3])] };
+    env_alphabet_v(t, false)
+}
+
+/// `small`: values of hundredths of kWh, so that shortfalls of 0.01 kWh and less occur
+fn env_alphabet_v(t: usize, small: bool) -> Vec<Letter> {
+    let vecs: Vec<Vec<V>> = if small {
+        vec![vec![50, 3], vec![51, 2], vec![1, 0], vec![52, 52]]
+    } else if t == 2 {
+        vec![k(&[1, 0]), k(&[0, 3]), k(&[3, 1]), k(&[2, 2])]
+    } else {
+        vec![k(&[1]), k(&[3])]
+    };
     let mut al = vec![];
     for id in [None, Some(1), Some(2), Some(-1)] {
         for v in &vecs {
@@ -201,6 +212,7 @@ pub fn run(ctx: &Ctx) -> i32 {
     let shared = Shared::new("C05", ctx);
     let depth = if ctx.quick() { 3 } else { 4 };
     explore(ctx, &format!("ENV wide T=2 depth<={depth}"), Wide { alphabet: env_alphabet(2), bases: alpha::bases(false), max_add: depth, repeat: false }, C05, shared.clone());
+    explore(ctx, &format!("ENV wide T=2 small values (0.01-0.52 kWh) depth<={}", depth - 1), Wide { alphabet: env_alphabet_v(2, true), bases: alpha::bases(false), max_add: depth - 1, repeat: false }, C05, shared.clone());
     explore(ctx, &format!("ENV wide T=1 (repeated lines) depth<={depth}"), Wide { alphabet: env_alphabet(1), bases: alpha::bases(false), max_add: depth, repeat: true }, C05, shared.clone());
     explore(ctx, "seeded: shipped files + <=2 ENV lines (12 steps)", Wide { alphabet: alpha::seeded_letters(), bases: alpha::shipped_bases(), max_add: if ctx.quick() { 1 } else { 2 }, repeat: false }, C05, shared.clone());
     finish(
